@@ -381,6 +381,9 @@ class Activated(Term):
             np.atleast_2d(self.degree).T,
             self.term.membership(x),
         )
+        if np.size(self.degree) > 1 and np.ndim(x) == 2 and np.ndim(y) == 2:
+            # one row per activation degree, even when x holds a single sample (eg, resolution of 1)
+            return y  # type:ignore
         return y.squeeze()  # type:ignore
 
 
